@@ -84,6 +84,14 @@ pub(crate) fn log_reset() {
     }
 }
 
+pub(crate) fn log_len() -> usize {
+    unsafe { LOG_N }
+}
+pub(crate) fn log_at(k: usize) -> (u8, usize, [u64; 4]) {
+    assert!(k < unsafe { LOG_N }, "VERIF: fewer fields written than the layout prescribes");
+    unsafe { LOG[k] }
+}
+
 fn log_push(kind: u8, size: usize, v: [u64; 4]) {
     unsafe {
         assert!(LOG_N < LOG_CAP, "VERIF: harness log capacity exceeded");
